@@ -54,9 +54,9 @@ Proof.
       pose proof (IH rem H2 Hr) as X. rewrite Eg in X. cbn [snd] in X. rewrite X. lia.
 Qed.
 
-Lemma allocate_ok_iff : forall R r c q, (exists R', r_allocate R r c q = (R', Ok tt)) <-> q <= r_available R r.
+Lemma allocate_ok_iff : forall R r c q, 0 <= q -> ((exists R', r_allocate R r c q = (R', Ok tt)) <-> q <= r_available R r).
 Proof.
-  intros R r c q. unfold r_allocate. destruct (r_available R r <? q) eqn:E.
+  intros R r c q Hq. unfold r_allocate. destruct (q <? 0) eqn:E0; [lia|]. destruct (r_available R r <? q) eqn:E.
   - split; [intros (R' & X); discriminate|lia].
   - destruct (alloc_loop r q (r_avail R)) as [v recs]. split; [lia|eauto].
 Qed.
@@ -72,13 +72,13 @@ Proof.
       pose proof (gt_take_rem r (r_avail R) q (nn_avail _ HN) Hq1) as X.
       destruct (gt_take r q (r_avail R)) as [v' rem]. cbn [snd] in X. unfold r_available in Ea.
       destruct (0 <? rem) eqn:E0; [|lia].
-      unfold r_allocate, r_available. rewrite Ea. split; [discriminate|intros (R' & Y); discriminate].
+      unfold r_allocate, r_available. rewrite Ea. destruct (q <? 0); (split; [discriminate|intros (R' & Y); discriminate]).
     + (* enough: both leave the same vector *)
-      unfold r_allocate. rewrite Ea. destruct (alloc_loop r q (r_avail R)) as [v recs] eqn:El.
+      unfold r_allocate. destruct (q <? 0) eqn:E0; [lia|]. rewrite Ea. destruct (alloc_loop r q (r_avail R)) as [v recs] eqn:El.
       rewrite (gt_take_alloc r (r_avail R) q v recs (nn_avail _ HN)); [|unfold r_available in Ea; lia|exact El].
       cbn [Z.ltb Z.compare]. set (R1 := mkRes v (r_total R) (al_append c recs (r_allocs R))).
       assert (HN1 : Nonneg R1).
-      { apply (nonneg_allocate R r c q R1 (Ok tt) Hq1 HN). unfold r_allocate. rewrite Ea, El. reflexivity. }
+      { apply (nonneg_allocate R r c q R1 (Ok tt) Hq1 HN). unfold r_allocate. rewrite E0, Ea, El. reflexivity. }
       apply (IH R1 c HN1 Hq2).
 Qed.
 
@@ -86,7 +86,7 @@ Qed.
 Lemma allocate_lowers : forall R r c q R' o P, Nonneg R -> 0 <= q -> r_allocate R r c q = (R', o) ->
   sumP P (r_avail R') <= sumP P (r_avail R).
 Proof.
-  intros R r c q R' o P HN Hq H. unfold r_allocate in H. destruct (r_available R r <? q); [inversion H; lia|].
+  intros R r c q R' o P HN Hq H. unfold r_allocate in H. destruct (q <? 0); [inversion H; lia|]. destruct (r_available R r <? q); [inversion H; lia|].
   destruct (alloc_loop r q (r_avail R)) as [v recs] eqn:El. inversion H; subst. cbn [r_avail].
   destruct (alloc_loop_spec _ _ _ _ _ El) as (C & _ & _ & _ & Rn). specialize (C P).
   pose proof (sumP_nonneg P recs (Rn Hq)). lia.
@@ -98,7 +98,7 @@ Proof.
   inversion Hq as [|x l Hq1 Hq2]; subst. cbn [snd] in Hq1. cbn [alloc_seq] in H.
   destruct (r_allocate R r c q) as [R1 [[]|e]] eqn:Ea; [|discriminate].
   destruct Hin as [Hin|Hin].
-  - subst rq. cbn [fst snd]. apply (allocate_ok_iff R r c q). eauto.
+  - subst rq. cbn [fst snd]. apply (allocate_ok_iff R r c q Hq1). eauto.
   - pose proof (IH R1 c R' (nonneg_allocate _ _ _ _ _ _ Hq1 HN Ea) Hq2 H rq Hin) as X.
     pose proof (allocate_lowers R r c q R1 (Ok tt) (fun k => res_match k (fst rq)) HN Hq1 Ea) as Y.
     unfold r_available, vec_quantity in *. lia.
@@ -145,34 +145,34 @@ Qed.
 Lemma allocate_other_name : forall R r c q R' o r', fst r' <> fst r -> r_allocate R r c q = (R', o) ->
   r_available R' r' = r_available R r'.
 Proof.
-  intros R r c q R' o r' Hn H. unfold r_allocate in H. destruct (r_available R r <? q); [inversion H; reflexivity|].
+  intros R r c q R' o r' Hn H. unfold r_allocate in H. destruct (q <? 0); [inversion H; reflexivity|]. destruct (r_available R r <? q); [inversion H; reflexivity|].
   destruct (alloc_loop r q (r_avail R)) as [v recs] eqn:El. inversion H; subst. unfold r_available. cbn [r_avail].
   eapply alloc_loop_other_name; eauto.
 Qed.
 
 Definition req_names (req : rvec) : list Z := map (fun rq => fst (fst rq)) req.
 
-Lemma alloc_seq_fits : forall req R c, NoDup (req_names req) ->
+Lemma alloc_seq_fits : forall req R c, NoDup (req_names req) -> nonneg_vec req ->
   (forall rq, In rq req -> snd rq <= r_available R (fst rq)) ->
   exists R', alloc_seq R req c = (R', Ok tt).
 Proof.
-  induction req as [|[r q] req IH]; intros R c Hnd Hfit; cbn [alloc_seq]; [eauto|].
-  cbn [req_names map fst] in Hnd. inversion Hnd as [|x y N1 N2]; subst.
+  induction req as [|[r q] req IH]; intros R c Hnd Hnn Hfit; cbn [alloc_seq]; [eauto|].
+  cbn [req_names map fst] in Hnd. inversion Hnd as [|x y N1 N2]; subst. inversion Hnn as [|x y Q1 Q2]; subst. cbn [snd] in Q1.
   destruct (r_allocate R r c q) as [R1 [[]|e]] eqn:Ea.
-  - apply IH; [exact N2|]. intros rq Hin.
+  - apply IH; [exact N2|exact Q2|]. intros rq Hin.
     assert (Hne : fst (fst rq) <> fst r).
     { intro E. apply N1. unfold req_names. apply in_map_iff. exists rq. split; [exact E|exact Hin]. }
     rewrite (allocate_other_name _ _ _ _ _ _ (fst rq) Hne Ea). apply Hfit. right. exact Hin.
   - exfalso. unfold r_allocate in Ea. specialize (Hfit (r, q) (or_introl eq_refl)). cbn [fst snd] in Hfit.
-    destruct (r_available R r <? q) eqn:E; [lia|]. destruct (alloc_loop r q (r_avail R)). discriminate.
+    destruct (q <? 0) eqn:E0; [lia|]. destruct (r_available R r <? q) eqn:E; [lia|]. destruct (alloc_loop r q (r_avail R)). discriminate.
 Qed.
-Theorem per_key_implies_success : forall R req c, NoDup (req_names req) -> r_gt_per_key R req = true ->
+Theorem per_key_implies_success : forall R req c, NoDup (req_names req) -> nonneg_vec req -> r_gt_per_key R req = true ->
   exists R', r_allocate_multiple R req c = (R', Ok tt).
 Proof.
-  intros R req c Hnd Hfit. unfold r_gt_per_key in Hfit. rewrite forallb_forall in Hfit. unfold r_allocate_multiple.
+  intros R req c Hnd Hnn Hfit. unfold r_gt_per_key in Hfit. rewrite forallb_forall in Hfit. unfold r_allocate_multiple.
   assert (E : existsb (fun rq => r_available R (fst rq) <? snd rq) req = false).
   { destruct (existsb _ req) eqn:E; [|reflexivity]. apply existsb_exists in E. destruct E as (rq & Hin & Hlt). specialize (Hfit rq Hin). lia. }
-  rewrite E. destruct (alloc_seq_fits req R c Hnd) as (R' & Es); [intros rq Hin; specialize (Hfit rq Hin); lia|].
+  rewrite E. destruct (alloc_seq_fits req R c Hnd Hnn) as (R' & Es); [intros rq Hin; specialize (Hfit rq Hin); lia|].
   rewrite Es. eauto.
 Qed.
 (* for requests that name each resource once the two tests coincide *)
@@ -191,10 +191,11 @@ Qed.
 (* the worker level: after can_accomodate_strategy said yes because the resources fit, placing a plain
    strategy, or the first member of a batch, never raises *)
 Theorem w_fit_place_succeeds : forall t s w, Nonneg (w_res w) -> nonneg_vec (s_req s) -> r_gt (w_res w) (s_req s) = true ->
+  zfind t (w_placed w) = None ->          (* since /repo 17757a8 an already placed task is refused *)
   (s_is_batch s = true -> 1 <= s_bsize s /\ zfind (s_id s) (w_batches w) = None) ->
   snd (w_place t s w) = Ok tt.
 Proof.
-  intros t s w HN Hq Hfit Hb. unfold w_place. destruct (s_is_batch s).
+  intros t s w HN Hq Hfit Hnp Hb. unfold w_place. unfold zmem. rewrite Hnp. destruct (s_is_batch s).
   - destruct (Hb eq_refl) as [Hs Hz]. rewrite Hz. destruct (s_bsize s <? 1) eqn:E; [lia|].
     destruct (proj1 (gt_iff_success (w_res w) (s_req s) (CBatch (w_fresh w)) HN Hq) Hfit) as (R' & ->). reflexivity.
   - destruct (proj1 (gt_iff_success (w_res w) (s_req s) (CTask t) HN Hq) Hfit) as (R' & ->). reflexivity.
